@@ -30,7 +30,7 @@ import (
 )
 
 const (
-	quickCases    = 2400
+	quickCases    = 20000
 	thoroughCases = 160000
 	// sessionEndWatchdog bounds the wait for the server to notice a hard close.
 	sessionEndWatchdog = 20 * time.Second
